@@ -63,7 +63,7 @@ var hSubVals = map[string][]string{
 	"size2": {"7", "8", "9"},  // a key that has the projected key "size" as a strict prefix
 	"al":    {"p", "q"},       // a strict prefix of "align"
 }
-var hBases = []string{"Encode", "Decode", "Sort", "CRC"}
+var hBases = []string{"Encode", "Decode", "Sort", "CRC", "SHA-256", "SHA-512", "X-1"} // a dash and digits inside the base are part of it when sub-name parts follow
 var hUnits = []string{"sec/op", "B/op", "allocs/op", "B/s", "widgets"}
 
 func hGenResult(T *sim.Tape, universe int, nsub int) *hResult {
@@ -380,6 +380,11 @@ func hGenExprs(T *sim.Tape) []hExpr {
 					f.order = "fixed"
 					for _, x := range vp[:m] {
 						f.fixed = append(f.fixed, vals[x])
+					}
+					if T.Intn(4, "fixed-repeats") == 0 {
+						// a value named twice in a row: the listed order of the distinct values is unchanged
+						at := T.Intn(len(f.fixed), "fixed-repeat-at")
+						f.fixed = append(f.fixed[:at+1], f.fixed[at:]...)
 					}
 					if T.Intn(3, "fixed-with-missing") != 0 {
 						f.fixed = append(f.fixed, "") // the missing value is listed too
